@@ -7,6 +7,9 @@ import Proofs.C17
 namespace Flatland.C17.Frames.Proofs
 open Flatland.C17 Flatland.C17.Spec Flatland.C17.Proofs Flatland.C17.Frames
 
+def kS0 : Key := ['s']
+def kB0 : Key := ['b']
+
 /-! ## the class table of the mechanism state is model A's class table -/
 
 /-- the part of the mechanism state that is model A's state verbatim (no frames) -/
@@ -310,8 +313,66 @@ theorem classRead_refines {σ : FState} {a : State} (h : Sim σ a) (alias : Bool
   · simp only [hc, if_false]
     exact ⟨trivial, h⟩
 
-def kS0 : Key := ['s']
-def kB0 : Key := ['b']
+theorem classOp_read_state (a : State) (c : ClassId) (o : Op) (p : Frame → Pull) (hp : pullOf o = some p) :
+    (classOp a c o).1 = a := by
+  simp only [classOp]
+  split
+  · split
+    · rfl
+    · rename_i s _
+      obtain ⟨res, hres⟩ := dictLikeRead_isRead (tReader a c s) o p hp
+      simp only [hres]
+  · rfl
+
+/-- a sequence of reads through class views, executed on the mechanism -/
+def readsRun (σ : FState) : List (ClassId × Op) → FState × List Res
+  | [] => (σ, [])
+  | co :: rs => ((readsRun (classOpF false σ co.1 co.2).1 rs).1,
+      (classOpF false σ co.1 co.2).2 :: (readsRun (classOpF false σ co.1 co.2).1 rs).2)
+
+/-- **lazy materialisation is unobservable (reads through class views).**  Whatever reads are made,
+    in whatever order, through whatever class views — each possibly materialising a frame —, the
+    mechanism state keeps describing the SAME model-A state, and every read returns what model A
+    returns in that one state: no read can be told from its answer whether, or which, other reads
+    happened before it. -/
+theorem lazy_is_unobservable_reads {a : State} (hco : AllCoherent a) :
+    ∀ (rs : List (ClassId × Op)) (σ : FState), Sim σ a → (∀ co ∈ rs, (pullOf co.2).isSome = true) →
+      Sim (readsRun σ rs).1 a ∧ (readsRun σ rs).2 = rs.map (fun co => (classOp a co.1 co.2).2)
+  | [], _, h, _ => ⟨h, rfl⟩
+  | co :: rs, σ, h, hall => by
+    obtain ⟨p, hp⟩ := Option.isSome_iff_exists.mp (hall co List.mem_cons_self)
+    have hstep := classRead_refines h false co.1 co.2 p hp
+      (fun hc => CoherentF_of h co.1 (hco co.1 (by rw [h.classes]; exact hc)))
+    rw [classOp_read_state a co.1 co.2 p hp] at hstep
+    have ih := lazy_is_unobservable_reads hco rs _ hstep.2
+      (fun x hx => hall x (List.mem_cons_of_mem _ hx))
+    simp only [readsRun, List.map_cons]
+    exact ⟨ih.1, by rw [hstep.1, ih.2]⟩
+
+/-- the start: nothing materialised on one side, the owner's frame = `initial_set` on the other -/
+theorem Sim_init (init : List (Key × Val)) : Sim (finit init) (initState init) where
+  classes := rfl
+  ndesc := rfl
+  insts := rfl
+  owner := by
+    intro c s hc
+    match c, hc with
+    | 0, hc =>
+      have : s = 0 := by simpa [FState.ownOf, finit] using hc.symm
+      subst this; rfl
+    | c + 1, hc => simp [FState.ownOf, finit] at hc
+  other := by
+    intro c s hc hd
+    match c, hc, hd with
+    | 0, hc, _ => simp [FState.ownOf, finit] at hc
+    | c + 1, _, hd => simp [FState.descOf, FState.mroOf, finit] at hd
+
+/-- non-vacuity: from a fresh root (frame NOT materialised), `['s']` — which materialises it —,
+    `in`, `items()`, `copy()` answer as model A does, in any order -/
+example : (readsRun (finit [(kS0, .int 1)]) [(0, .contains kS0), (0, .getitem kS0), (0, .items), (0, .copy)]).2
+    = [.bool true, .val (.int 1), .items [(kS0, .int 1)], .items [(kS0, .int 1)]] := by decide
+example : materialised (finit [(kS0, .int 1)]) = [] ∧
+    materialised (readsRun (finit [(kS0, .int 1)]) [(0, .popitem), (0, .getitem kS0)]).1 = [0] := by decide
 
 /-! ## invariants of the mechanism as written: every frame is a dict of its own, `initial_set` is
 never written -/
